@@ -107,6 +107,13 @@ def operator_agreement(F, r, module_prefixes=("vrp_", "rosomaxa")):
         if tr not in OPP:
             continue
         fam = [g for g in F.fns if g == fid or g.startswith(fid + "::")]
+        # helpers of the same module called directly from the impl (an extracted `add_dimensions(target, other)` still is the operator's arithmetic)
+        mod = fn["module"]
+        for g in list(fam):
+            for _, t in mir.calls(F.fns[g]):
+                tg = t.get("res") or t["callee"]
+                if tg in F.fns and F.fns[tg]["module"] == mod and F.fns[tg]["kind"] != "Closure" and not F.fns[tg].get("impl_trait") and tg not in fam:
+                    fam += [h for h in F.fns if h == tg or h.startswith(tg + "::")]
         own = 0
         bad = None
         for g in fam:
